@@ -411,6 +411,66 @@ def reentrant_cells(ctx):
                     ctx.outcome("probe-called")
 
 
+def wildcard_cells(ctx):
+    """An attribute governed by a wildcard declaration comes into being at
+    its first access; an observer registered before that (optional name,
+    anytrait, metadata filter) follows it from that very access on"""
+    from traits.api import HasTraits, Instance, Int
+    from traits.observation.api import trait as t_
+
+    class Leaf(HasTraits):
+        value = Int
+
+    exprs = {"optional-name": lambda: t_("slot_a", optional=True).trait(
+        "value"), "anytrait": lambda: "*"}
+    for ename, first in ((e, f) for e in exprs
+                         for f in ("assign", "read-then-assign")):
+        case = {"wildcard_cell": ename, "first": first}
+        ctx.case(case)
+        ctx.ev()
+        ctx.tr()
+
+        class W(HasTraits):
+            slot_ = Instance(Leaf)
+        w = W()
+        calls = []
+
+        def h(ev):
+            calls.append((getattr(ev, "name", None), ev.object))
+        try:
+            w.observe(h, exprs[ename]())
+            if first == "read-then-assign":
+                w.slot_a
+            calls.clear()
+            leaf = Leaf()
+            w.slot_a = leaf
+        except Exception as exc:
+            ctx.violation("C08:wildcard:raises:%s" % ename, "raised %r"
+                          % (exc,), **case)
+            continue
+        got = [c for c in calls if c[0] == "slot_a"]
+        if len(got) != 1:
+            ctx.violation(
+                "C08:wildcard:link-event:%s:%s" % (ename, first),
+                "observer registered before the wildcard-governed attribute "
+                "existed: its %s assignment gave %d event(s), expected 1"
+                % ("first" if first == "assign" else "first (after a read)",
+                   len(got)), **case)
+            continue
+        ctx.outcome("step-trait-event")
+        if ename != "anytrait":
+            calls.clear()
+            leaf.value += 1
+            if len(calls) != 1:
+                ctx.violation(
+                    "C08:wildcard:leaf:%s:%s" % (ename, first),
+                    "the object assigned to the new attribute is reachable "
+                    "but changing its value gave %d call(s)" % len(calls),
+                    **case)
+                continue
+            ctx.outcome("probe-called")
+
+
 #: expressions with large menus: events on the root only, one level less
 ROOT_ONLY = {"+coll.items.value"}
 
@@ -422,7 +482,7 @@ def menu(ename):
 
 
 def shards(tier):
-    out = [{"expr": "__reentrant__"}]
+    out = [{"expr": "__reentrant__"}, {"expr": "__wildcard__"}]
     for ename in EXPRS:
         evs = menu(ename)
         n = 8 if len(evs) > 40 else (4 if len(evs) > 20 else 2)
@@ -436,6 +496,10 @@ def run_shard(ctx, shard, tier):
     if ename == "__reentrant__":
         reentrant_cells(ctx)
         ctx.depth_completed = 3
+        return
+    if ename == "__wildcard__":
+        wildcard_cells(ctx)
+        ctx.depth_completed = 2
         return
     evs = menu(ename)
     depth = 4 if tier == "quick" else 5
@@ -480,6 +544,11 @@ def replay(rec):
     from mc.ctx import Ctx
     ctx = Ctx("C08", None, "quick", 0)
     c = rec.get("case") or rec
+    if c.get("wildcard_cell"):
+        wildcard_cells(ctx)
+        for v in ctx.violations.values():
+            print("  violation:", v["sig"], v["msg"])
+        return not ctx.violations
     if c.get("reentrant"):
         reentrant_cells(ctx)
         want = rec.get("sig")
